@@ -60,11 +60,61 @@ Theorem C14_search_phase_monotone b o f c c' : (c <= c')%Z ->
 Proof. exact (search_phase_monotone b o f c c'). Qed.
 Print Assumptions C14_search_phase_monotone.
 
-(* Parzen-estimator selector: budget >= 1 (the caller substitutes 50 * dim for a missing budget), counts >= 0. *)
+(* Parzen-estimator selector: budget >= 1 (the caller substitutes 50 * dim for a missing or zero budget: C14_spe_view_budget
+   below), counts >= 0. *)
 Theorem C14_spe_phase_monotone b f c c' : (1 <= b)%Z -> (0 <= f)%Z -> (0 <= c <= c')%Z ->
   (pphase_ix (fst (spe_phase b c f)) <= pphase_ix (fst (spe_phase b c' f)))%Z.
 Proof. exact (spe_phase_monotone b f c c'). Qed.
 Print Assumptions C14_spe_phase_monotone.
+
+(* The table of the Parzen-estimator selector: initialisation while the successful fraction is below 15 % (unless more than
+   30 % of the budget is spent and more than 10 % of the observations succeeded), completion from 75 % on; the progress
+   returned is the successful fraction. *)
+Theorem C14_spe_phase_table b c f :
+  let sp := success_progress b c f in let tp := total_progress b c in let pr := success_proportion c f in
+  let p := fst (spe_phase b c f) in
+  (p = PInit <-> sp < 15#100 /\ ~ (30#100 < tp /\ 1#10 < pr)) /\
+  (p = PSko <-> ~ (sp < 15#100 /\ ~ (30#100 < tp /\ 1#10 < pr)) /\ sp < 75#100) /\
+  (p = PCompletion <-> 75#100 <= sp) /\ snd (spe_phase b c f) = sp.
+Proof. exact (spe_phase_table b c f). Qed.
+Print Assumptions C14_spe_phase_table.
+
+(* "for every budget ... the Parzen-estimator selector returns a phase": the hypothesis `1 <= b` above is DISCHARGED by the
+   request view (SPENextPoints.view: `observation_budget or dim * 50`).  For every request -- no budget (None), budget 0,
+   any positive budget -- on a domain of at least one parameter the budget handed to the selector is >= 1, a phase is
+   served, and it is the selector's phase at the effective budget: the request's own budget when positive, the phantom
+   budget 50 * dim otherwise. *)
+Theorem C14_spe_view_budget ob dim : (1 <= dim)%Z -> budget_ok ob ->
+  (1 <= spe_view_budget ob dim)%Z /\
+  (forall b, ob = Some b -> (1 <= b)%Z -> spe_view_budget ob dim = b) /\
+  (ob = None \/ ob = Some 0%Z -> spe_view_budget ob dim = (50 * dim)%Z).
+Proof. exact (fun Hd Hb => conj (spe_view_budget_pos ob dim Hd Hb) (spe_view_budget_cases ob dim)). Qed.
+Print Assumptions C14_spe_view_budget.
+
+Theorem C14_spe_view_phase_total ob dim c f : (1 <= dim)%Z -> budget_ok ob ->
+  let eff := match ob with Some b => if (1 <=? b)%Z then b else (50 * dim)%Z | None => (50 * dim)%Z end in
+  (1 <= eff)%Z /\ spe_view_phase ob dim c f = Some (spe_phase eff c f).
+Proof. exact (spe_view_phase_total ob dim c f). Qed.
+Print Assumptions C14_spe_view_phase_total.
+
+Theorem C14_spe_view_phase_monotone ob dim f c c' : (1 <= dim)%Z -> budget_ok ob -> (0 <= f)%Z -> (0 <= c <= c')%Z ->
+  match spe_view_phase ob dim c f, spe_view_phase ob dim c' f with
+  | Some (p, _), Some (p', _) => (pphase_ix p <= pphase_ix p')%Z
+  | _, _ => False
+  end.
+Proof. exact (spe_view_phase_monotone ob dim f c c'). Qed.
+Print Assumptions C14_spe_view_phase_monotone.
+
+(* non-vacuity: a one-parameter request with budget 0 and one observation is in the initialisation phase of the phantom budget
+   50 (progress 1/50), it reaches the SKO phase at 8 observations (8/50 >= 15 %) exactly as a request without a budget does,
+   and a request with budget 10 is already past 75 % there *)
+Example C14_example_spe_view :
+  match spe_view_phase (Some 0%Z) 1 1 0 with Some (PInit, pr) => Qeq_bool pr (1#50) | _ => false end = true /\
+  match spe_view_phase (Some 0%Z) 1 8 0, spe_view_phase None 1 8 0 with
+  | Some (PSko, a), Some (PSko, b) => Qeq_bool a b | _, _ => false end = true /\
+  match spe_view_phase (Some 10%Z) 1 8 0 with Some (PCompletion, _) => true | _ => false end = true /\
+  spe_view_budget (Some 0%Z) 3 = 150%Z.
+Proof. vm_compute. repeat split; reflexivity. Qed.
 
 (* gamma of the solver options is a proper fraction (the code asserts 0 < gamma < 1) *)
 Theorem C14_spe_gamma_range b c f u : (1 <= b)%Z -> (0 <= f <= c)%Z ->
